@@ -190,7 +190,10 @@ Drain(r, n) ==
   /\ UNCHANGED <<hist, base, ckpt, owner, rb, cpos, cheld, termT, gvtSeen, gvtCnt, gvtVals, finiLp, finiQ, votes,
                  stopped, exited, hand, voted, maxDecl, mustVote, announced, net, rx, lastNm, early>>
 DrainChecks(r, n) ==
-  << <<Cardinality(InboxOf(r)) = n, "C15", "buffer swap lost or duplicated an inserted event">> >>
+  << <<Cardinality(InboxOf(r)) = n, "C15", "buffer swap lost or duplicated an inserted event">>,
+     <<Cardinality(InboxOf(r)) = n, "C06", "an inserted event was lost or duplicated between insertion and extraction (buffer swap)">>,
+     <<Cardinality(InboxOf(r)) = n, "C01", "an inserted event was lost or duplicated between insertion and extraction (buffer swap)">>,
+     <<Cardinality(InboxOf(r)) = n, "C02", "an inserted event was lost or duplicated between insertion and extraction (buffer swap)">> >>
 
 (* msg_queue_extract + gvt_on_msg_extraction (process.c:354-360) *)
 Extract(r, m) ==
